@@ -678,6 +678,15 @@ class Fxp():
         n_word = self.n_word
         n_frac = self.n_frac
 
+        if isinstance(val, Fxp) and not raw and (val.scaled or (self.scale is not None and self.bias is not None and (self.scale != 1 or self.bias != 0))):
+            # objects with scale or bias exchange values, not raw codes
+            if self.signed is None: self.signed = signed = val.signed
+            if self.n_word is None: self.n_word = n_word = val.n_word
+            if self.n_frac is None: self.n_frac = n_frac = val.n_frac
+            if set_inaccuracy and val.status['inaccuracy']:
+                self.status['inaccuracy'] = True
+            val = np.asarray(val.get_val())
+
         if val is None:
             val = 0
 
@@ -1163,7 +1172,10 @@ class Fxp():
             Fxp with it's value modified. 
         """
         
-        if isinstance(x, Fxp):
+        if isinstance(x, Fxp) and (x.scaled or self.scaled):
+            # objects with scale or bias exchange values, not raw codes
+            self.set_val(x, index=index)
+        elif isinstance(x, Fxp):
             raw_val = x.val
 
             new_val_raw = _shift_raw(raw_val, self.n_frac - x.n_frac, x.n_word)
